@@ -17,6 +17,11 @@ REQUESTS = [
     "POST:68747470733a2f2f6578616d706c652e636f6d2f75706c6f6164:content-type=746578742f706c61696e",
     "GET:68747470733a2f2f612f783f793d7a:x-a=31;x-a=32;accept=2a2f2a",
 ]
+# CONNECT (authority-form target) and extended CONNECT (RFC 9220: `:protocol`)
+CONNECTS = ["CONNECT:613a343433:-", "CONNECT+webtransport:68747470733a2f2f612f7774:-", "CONNECT+websocket:68747470733a2f2f612f63:x-a=31"]
+# shutdown(n): n requests past the last accepted one; the GOAWAY id 4*(k+n) needs a 1/2/4/8-byte varint, and saturates
+SHUT_N = [0, 1, 2, 3, 15, 16, 17, 4095, 4096, 2**20, 2**28 - 1, 2**28, 2**30, 2**59, 2**60, 2**62 - 1, 2**62, 2**64 - 1]
+CODES = [0, 0x100, 0x10c, 0x10d, 0x33, 2**30, 2**62 - 1]
 RESPONSES = ["200:-", "404:content-length=30", "200:server=6833;x-long=" + "61" * 70]
 TRAILERS = ["-", "x-t=31", "x-t=31;x-u=" + "62" * 40]
 
@@ -80,7 +85,7 @@ class C14(Prop):
     id = "C14"
     thorough_rounds = 6   # thorough tier: this many independently seeded rounds of the random generators (duplicates dropped)
     modules = ["H3.Props.C14", "H3.Lemmas.GenAgreeSend"]
-    engines = ["wbuf", "out"]
+    engines = ["wbuf", "sdc", "out"]
     design_ref = "DESIGN.md section 7, C14; section 9, R-14"
     level_text = ("Lean theorems over models of WriteBuf (fixed header array + payload, its From conversions and Buf impl), "
                   "Frame::encode, stream::write against an acceptance script, and of what each API call writes on which stream "
@@ -89,7 +94,12 @@ class C14(Prop):
                   "back under the RFC 9000/9114 parser as (type, length = bytes that follow); for every run of the machine in "
                   "either role, every configuration and every acceptance pattern each stream's byte log satisfies the RFC 9114 "
                   "validity predicate (prefix-valid while open, whole frames at FIN); grease ids are 31N+33 < 2^62 and never a "
-                  "defined or HTTP/2-reserved id")
+                  "defined or HTTP/2-reserved id; chunking independence: for a payload handed over as any list of segments (Chain, "
+                  "deque of Bytes; empty segments anywhere) the DATA length and the bytes handed to the transport are those of the "
+                  "flattened payload, every poll over the segmented buffer being a poll over the flat one; the run theorem also over "
+                  "the extended machine (stop_stream, peer STOP_SENDING, abandoned call, stop_sending, peer RESET, split, cloned "
+                  "SendRequest handles): a send side that was ended may stop inside a frame (prefix-valid, whole frames at FIN), h3 "
+                  "resets request streams only, an idle request stream holds whole frames")
     level_note = ("trusted: Lean kernel + 3 standard axioms; hand models tied to the code by (a) the real WriteBuf built through "
                   "its From impls and consumed through its Buf impl under the same patterns (engine wbuf), (b) real h3 "
                   "server/client objects over SimQuic under random API programs x configurations x write-credit patterns (engine "
@@ -112,13 +122,30 @@ class C14(Prop):
             "gw<grease id>:k, then Pending) x a second control frame (MAX_PUSH_ID / CANCEL_PUSH to a server, GOAWAY to a client) "
             "delivered while it is blocked x {nothing, a third frame, more credit, more credit + a third frame, credit in two "
             "steps} - a stream finished meanwhile is judged `truncated` by checkStream; "
+            "wbuf datac: = Frame::Data over a payload in segments (2 segments: bytes::buf::Chain, else a deque of Bytes): every "
+            "2-way split of payloads of 0..6 bytes incl. empty first / second segment, splits of 63/64/65/100/16383/16384/16385 "
+            "bytes around the length-varint boundaries, sampled 3/4-way splits with empty segments anywhere, also behind a stream "
+            "type; out programs also: split (send calls on the send half), stop_stream as last send-side op, stop_sending, kill "
+            "(possibly in mid-write), peer RESET / STOP_SENDING behind the first call, CONNECT and extended CONNECT requests, "
+            "SendRequest::clone (snd.cl; requests through any live handle), shutdown(n) with n up to 2^64-1 (GOAWAY ids in 1/2/4/8 "
+            "byte varints, saturating), build credit granted before the q ops; the judge (outlog) demands whole frames on every "
+            "stream that is not being written and has no call pending unless the line / summary says its send side was ended, at "
+            "most one control / encoder / decoder stream, no rst on those, no MISUSE / OVERLAP, and refuses unknown tokens (BAD:); "
             "non-trivial = the implementation wrote at least one frame beyond the three stream headers or wrote on its grease "
             "stream (out) / returned bytes (wbuf)")
     trusted = ["bytes::Bytes Buf impl for payloads", "SimQuic's poll_ready loop respects the Buf contract (chunk, advance <= chunk length)",
-               "field-section annotations (#fs) are obtained from the real encoder by a probe run and are inputs of the model"]
+               "field-section annotations (#fs) are obtained from the real encoder by a probe run and are inputs of the model",
+               "bytes::buf::Chain and the harness' Segs (deque of Bytes, chunk() = first non-empty segment) honour the Buf contract "
+               "(chunk() empty only when remaining() == 0); a Buf that breaks it is the application's error"]
     assumptions = ["R-14: API programs are sequences of calls each awaited to completion; a send future dropped in mid-write is outside the model",
                    "after FIN the transport refuses further writes (RFC 9000 §3.1); programs do not call send_* after finish on the same stream",
-                   "payload Buf is contiguous (Bytes)",
+                   "programs do not call send_* / finish after stop_stream on the same stream; after split the send calls are made on the send half only",
+                   "engine out sends contiguous payloads (the scenario interpreter's connection and SimQuic are typed B = Bytes); "
+                   "segmented payloads go through the real WriteBuf (engine wbuf, datac:), through real client / server connections "
+                   "typed B = Segs over a payload-generic copy of the small transport (engine sdc), and the translator reads the two "
+                   "places that take a length from the payload",
+                   "a FIN the transport accepts after the send side has ended (peer STOP_SENDING / own RESET_STREAM / connection end) "
+                   "finishes nothing (reading R-14b): SimQuic's poll_finish does not look at STOP_SENDING",
                    "engine out, grease on with credit limits: the harness seeds fastrand with a hash of the case line, so the three "
                    "reserved ids are a function of the line; the model assumes each is an 8-byte varint (id >= 2^30; a draw gives a "
                    "smaller one with probability ~2^-32). A line whose hash yields a smaller id would show as a correspondence "
@@ -135,7 +162,8 @@ class C14(Prop):
             return impl
         w = line.split()
         summary = impl.split(" | ", 1)[1]
-        r = LEAN.ask("outlog %s %s %s" % (w[1], w[2], summary))
+        # the ops of the line go along: which streams the peer stopped / which calls were abandoned is the line's doing
+        r = LEAN.ask("outlog %s %s %s @@ %s" % (w[1], w[2], " ".join(w[3:]), summary))
         return r.split(" ## ")[0].strip()
 
     # ------------------------------------------------------------- probes
@@ -215,6 +243,106 @@ class C14(Prop):
                 L.append("wbuf %s %s" % (d, p))
         return L
 
+    def chunk_cases(self, tier, rng):
+        """`Frame::Data` over a payload `B: Buf` that is not contiguous (`datac:<hex>|<hex>|…`: two segments = a real
+        `bytes::buf::Chain<Bytes, Bytes>`, otherwise a deque of `Bytes`): EVERY 2-way split of payloads of 0..6 bytes (empty
+        first / empty second segment included), the splits of 63 / 64 / 16383 / 16384 bytes that put the total and the first
+        segment on different sides of a length-varint boundary, sampled 3- and 4-way splits with empty segments anywhere
+        (first included), the same behind a stream type (`pair:`), each under the acceptance patterns of the flat frames."""
+        big = tier == "thorough"
+        L = []
+
+        def seg(bs):
+            return hx(bs) if bs else "-"
+
+        descs = []
+        for n in range(0, 7):
+            b = body(n, rng)
+            for i in range(0, n + 1):
+                descs.append("datac:%s|%s" % (seg(b[:i]), seg(b[i:])))
+        for n in (63, 64, 65, 100, 16383, 16384, 16385):
+            b = body(n, rng)
+            cuts = sorted(set([0, 1, 2, 62, 63, 64, n - 64, n - 63, n - 1, n] + [rng.randrange(0, n + 1) for _ in range(4 if big else 2)]))
+            for i in cuts:
+                if 0 <= i <= n:
+                    descs.append("datac:%s|%s" % (seg(b[:i]), seg(b[i:])))
+        for _ in range(120 if big else 40):
+            n = rng.choice([0, 1, 2, 3, 5, 8, 17, 63, 64, 65, 200, 16384])
+            b = body(n, rng)
+            k = rng.choice([3, 3, 3, 4])
+            cuts = sorted(rng.randrange(0, n + 1) for _ in range(k - 1))
+            r = rng.random()
+            if r < 0.35:
+                cuts[0] = 0                      # empty first segment
+            elif r < 0.5:
+                cuts[-1] = n                     # empty last segment
+            elif r < 0.6 and k > 2:
+                cuts[1] = cuts[0]                # empty segment in the middle
+            cuts = sorted(cuts)
+            parts = [b[x:y] for x, y in zip([0] + cuts, cuts + [n])]
+            descs.append("datac:" + "|".join(seg(q) for q in parts))
+        descs += ["datac:-", "datac:-|-|-", "datac:aa", "datac:-|-|-|aa"]
+        for d in list(descs):
+            if rng.random() < 0.15:
+                descs.append("pair:%d:%s" % (rng.choice([0x41, 33, 31 * 7 + 33, 2**30]), d))
+        for d in descs:
+            pats = ["-", "1", ",".join(["1"] * 12), "0,1,0,0,2,0,3", "100000", "2,100000", "3,100000", "a2,100", "a3,1", "a70"]
+            for _ in range(4 if big else 2):
+                pats.append(",".join(str(rng.choice([0, 1, 1, 2, 3, 7, 100])) for _ in range(rng.randrange(1, 14))))
+            if rng.random() < 0.5:
+                pats.append(",".join(rng.choice(["a%d" % rng.randrange(0, 8), str(rng.randrange(0, 9))]) for _ in range(rng.randrange(1, 6))))
+            for pt in pats:
+                L.append("wbuf %s %s" % (d, pt))
+        return L
+
+    def sdc_cases(self, tier, rng):
+        """engine `sdc`: a REAL client / server connection typed with a payload that is not contiguous (`B = Segs`, a deque of
+        `Bytes`) over a payload-generic copy of the small in-memory transport: `send_request` / `send_response`, one
+        `send_data(Segs)` per payload, `finish()`, the request stream's write credit `wc` plus grants handed out whenever a call is
+        pending.  Every 2-way split of 0..6 bytes, the splits around the length-varint boundaries, sampled 3/4-way splits with
+        empty segments (first included), 1-3 payloads per line, credit ample / dripping / running out anywhere."""
+        big = tier == "thorough"
+        L = []
+        rq = hx(self.request_frame(REQUESTS[0]))
+        fs_c = hx(self.fs_of("R", REQUESTS[0]) or [])
+        fs_s = hx(self.fs_of("sr", "200:-") or [])
+
+        def seg(bs):
+            return hx(bs) if bs else "-"
+
+        pays = []
+        for n in range(0, 7):
+            b = body(n, rng)
+            for i in range(0, n + 1):
+                pays.append("%s|%s" % (seg(b[:i]), seg(b[i:])))
+        for n in (63, 64, 65, 16383, 16384):
+            b = body(n, rng)
+            for i in sorted(set([0, 1, 63, 64, n - 63, n - 1, n, rng.randrange(0, n + 1)])):
+                if 0 <= i <= n:
+                    pays.append("%s|%s" % (seg(b[:i]), seg(b[i:])))
+        for _ in range(90 if big else 30):
+            n = rng.choice([0, 1, 2, 3, 5, 8, 17, 63, 64, 65, 200])
+            b = body(n, rng)
+            k = rng.choice([3, 3, 4])
+            cuts = sorted(rng.randrange(0, n + 1) for _ in range(k - 1))
+            if rng.random() < 0.4:
+                cuts[0] = 0
+            parts = [b[x:y] for x, y in zip([0] + cuts, cuts + [n])]
+            pays.append("|".join(seg(q) for q in parts))
+        for pay in pays:
+            for server in (False, True):
+                head = "#rq:%s #fs:%s" % (rq, fs_s) if server else "#fs:%s" % fs_c
+                more = [rng.choice(pays) for _ in range(rng.choice([0, 0, 1, 2]))]
+                body_toks = " ".join([pay] + more)
+                r = rng.random()
+                if r < 0.4:
+                    credit = "100000 -"
+                else:
+                    credit = "%d %s" % (rng.choice([0, 1, 2, 3, 5, 11, 12, 13, 20]),
+                                        ",".join(str(rng.choice([0, 1, 1, 2, 3, 7, 100])) for _ in range(rng.randrange(1, 30))))
+                L.append("sdc %s %s %s %s" % ("server" if server else "client", credit, head, body_toks))
+        return L
+
     def cfg(self, rng, server, grease, limited):
         parts = ["g1" if grease else "g0"]
         if rng.random() < 0.6:
@@ -259,10 +387,11 @@ class C14(Prop):
             if limited and rng.random() < 0.6:
                 ops.extend(grants(rng.randrange(1, 5)))
 
-        if limited and rng.random() < 0.7:
-            # let the connection come up (or not quite)
-            ops.extend(["gu3"] if rng.random() < 0.7 else [])
-            ops.extend(["gw%d:%d" % (s, rng.choice([1, 30, 100])) for s in own[:3] if rng.random() < 0.9])
+        if limited and rng.random() < 0.9:
+            # let the connection come up: a `q<sid>` / `snd` op posted before `build` has returned finds no task (`no-task`)
+            # and exercises nothing; one program in ten still starts without the credit (build under back-pressure)
+            ops.extend(["gu3"] if rng.random() < 0.93 else [])
+            ops.extend(["gw%d:%d" % (s, rng.choice([30, 100, 100])) for s in own[:3] if rng.random() < 0.97])
         if rng.random() < 0.5:
             ops += ["o%d" % peer_ctl, "s%d:000400" % peer_ctl]
             if not server and rng.random() < 0.8:
@@ -271,10 +400,17 @@ class C14(Prop):
                 ops.append("conn.A")
         nreq = rng.choice([1, 1, 2, 3])
         main = "conn" if server else "drv"
+        shut = lambda: rng.choice(SHUT_N) if rng.random() < 0.5 else rng.randrange(0, 3)
+        senders = ["snd"]
         for i in range(nreq):
             sid = 4 * i
             sids.append(sid)
-            rq = rng.choice(REQUESTS)
+            rq = rng.choice(REQUESTS + CONNECTS) if rng.random() < 0.25 else rng.choice(REQUESTS)
+            if not server and rng.random() < 0.25 and "bc=" not in cfgs:
+                # `SendRequest::clone`: the clone is task `snd<k>`; requests go through any live handle (not under a bidi-stream
+                # credit limit: which of two handles waiting for the same credit opens the stream is the executor's choice)
+                ops.append("%s.cl" % rng.choice(senders))
+                senders.append("snd%d" % (len(senders) + 1))
             if server:
                 ops += ["o%d" % sid, "s%d:%s" % (sid, hx(self.request_frame(rq)))]
                 if rng.random() < 0.3:
@@ -284,46 +420,70 @@ class C14(Prop):
                 mfs_cfg = ",".join(p for p in cfgs.split(",") if p.startswith("mfs=")) or "g0"
                 ops += self.hinted("q%d.res" % sid, "res", rq, mfs_cfg)
             else:
-                ops += self.hinted("snd.R:" + rq, "R", rq)
+                ops += self.hinted("%s.R:%s" % (rng.choice(senders), rq), "R", rq)
+                if limited and rng.random() < 0.85:
+                    # `send_request` returns (and the task `q<sid>` exists) once the HEADERS frame is through: credit for it
+                    ops += ["gb1", "gw%d:%d" % (sid, rng.choice([60, 100, 200]))]
             maybe_grants()
+            # the handle on which the send calls are made: the send half after `split`
+            q = "q%d" % sid
+            if rng.random() < 0.12:
+                ops.append("%s.sp" % q)
+                q += "s"
             calls = []
             if server and rng.random() < 0.9:
                 rs = rng.choice(RESPONSES)
-                calls.append(self.hinted("q%d.sr:%s" % (sid, rs), "sr", rs))
+                calls.append(self.hinted("%s.sr:%s" % (q, rs), "sr", rs))
             for _ in range(rng.choice([0, 1, 1, 2, 3])):
                 n = rng.choice(SIZES[:5] + ([rng.choice([16383, 16384, 3000, 5000])] if big_bodies else [5, 17, 100]))
-                calls.append(["q%d.sd:%s" % (sid, hx(body(n, rng)))])
+                calls.append(["%s.sd:%s" % (q, hx(body(n, rng)))])
             if rng.random() < 0.4:
                 tr = rng.choice(TRAILERS)
-                calls.append(self.hinted("q%d.st:%s" % (sid, tr), "st", tr))
+                calls.append(self.hinted("%s.st:%s" % (q, tr), "st", tr))
             if rng.random() < 0.25:
                 rng.shuffle(calls)   # any order: data before the response, trailers first, ...
+            # receive-side calls / events in between: `stop_sending`, the peer's RESET_STREAM (no effect on what is written)
+            if rng.random() < 0.15:
+                calls.insert(rng.randrange(0, len(calls) + 1), ["q%d.ss:%d" % (sid, rng.choice(CODES))])
+            if rng.random() < 0.12:
+                calls.insert(rng.randrange(0, len(calls) + 1), ["r%d:%d" % (sid, rng.choice(CODES))])
+            # the peer's STOP_SENDING anywhere behind the first call (a client's `send_request` has returned by then when the
+            # credit is unlimited; under limits the request may still be in flight: servers only): later calls write nothing
+            if calls and rng.random() < 0.12 and (server or not limited):
+                calls.insert(rng.randrange(1, len(calls) + 1), ["x%d:%d" % (sid, rng.choice(CODES))])
             r = rng.random()
-            if r < 0.7:
-                calls.append(["q%d.fi" % sid])
+            if r < 0.6:
+                calls.append(["%s.fi" % q])
                 if rng.random() < 0.1:
-                    calls.append(["q%d.fi" % sid])
+                    calls.append(["%s.fi" % q])
+            elif r < 0.7:
+                calls.append(["%s.dr" % q])
             elif r < 0.8:
-                calls.append(["q%d.dr" % sid])
+                # `stop_stream(code)`: RESET_STREAM, the last thing done to the send side
+                calls.append(["%s.rs:%d" % (q, rng.choice(CODES))])
+            elif r < 0.88:
+                # the task is dropped with its handle, possibly in the middle of a write that waits for credit (outside R-14:
+                # the stream may end inside a frame, the judge is told by the op)
+                calls.append(["%s.kill?" % q])
             for c in calls:
                 ops += c
                 maybe_grants()
             if rng.random() < 0.35:
-                ops.append("%s.S:%d" % (main, rng.randrange(0, 3)) if server else "drv.S")
+                ops.append("%s.S:%d" % (main, shut()) if server else "drv.S")
                 maybe_grants()
                 if server:
                     # which later arrivals a server that is shutting down still accepts, and when
                     # `accept` then returns `None`, is C08's/C09's subject: no new requests here
                     if rng.random() < 0.5:
-                        ops.append("conn.S:%d" % rng.randrange(0, 3))
+                        ops.append("conn.S:%d" % shut())
                     break
         r = rng.random()
         if r < 0.3:
-            ops.append("%s.S:%d" % (main, rng.randrange(0, 3)) if server else "drv.S")
+            ops.append("%s.S:%d" % (main, shut()) if server else "drv.S")
         elif r < 0.4:
             ops.append(main + ".D")
         elif r < 0.45 and not server:
-            ops.append("snd.dr")
+            ops.append("%s.dr" % rng.choice(senders))
         if limited and rng.random() < 0.6:
             # enough credit for everything that is still waiting
             ops += ["gu4", "gb3"] + ["gw%d:100000" % s for s in own + sids]
@@ -548,7 +708,7 @@ class C14(Prop):
         return L
 
     def cases(self, tier, rng):
-        return self.wbuf_cases(tier, rng) + self.out_cases(tier, rng) + self.grease_backpressure_cases(tier, rng)
+        return self.wbuf_cases(tier, rng) + self.chunk_cases(tier, rng) + self.sdc_cases(tier, rng) + self.out_cases(tier, rng) + self.grease_backpressure_cases(tier, rng)
 
     def extra(self, tier, rng, ctx):
         # latent, outside the property's quantifier (h3 never sends PUSH_PROMISE and has no API to
@@ -567,6 +727,10 @@ class C14(Prop):
         if w[0] == "wbuf":
             kind = w[1].split(":")[0]
             return "wbuf/%s/%s" % (kind, "panic" if impl.startswith("panic") else impl.split("=")[0].split(" ")[0])
+        if w[0] == "sdc":
+            npay = len([t for t in w[4:] if not t.startswith("#")])
+            return "sdc/%s/%s/%s/payloads=%d" % (w[1], "ample" if w[3] == "-" else "credit", "fin" if ",fin" in impl else
+                                                ("pending" if "pending" in impl else impl.split(" ")[0][:12]), npay)
         cfg = w[2]
         grease = "g1" in cfg.split(",")
         limited = any(k in cfg for k in ("wc=", "uc=", "bc="))
@@ -597,15 +761,33 @@ class C14(Prop):
             feat += "+multidata-trailers"
         if ",writing" in impl:
             feat += "+midwrite"
+        # the calls of the second audit (by what the line does, and `rst=` by what the implementation did)
+        ops = w[3:]
+        if ",rst=" in impl:
+            feat += "+rst"
+        if any(re.match(r"x\d+:", o) for o in ops):
+            feat += "+peerstop"
+        if any(o.endswith(".sp") for o in ops):
+            feat += "+split"
+        if any(o.endswith((".kill", ".kill?")) for o in ops):
+            feat += "+kill"
+        if any(o.endswith(".cl") for o in ops):
+            feat += "+clone"
+        if any(".R:CONNECT" in o for o in ops):
+            feat += "+connect"
+        if any(re.search(r"\.S:\d{3,}$", o) for o in ops):
+            feat += "+bigshutdown"
         return "out/%s/%s/%s/%s/%s%s" % (w[1], mode, lim, impl.split(" ")[0].split(":")[0], pend, feat)
 
     def trivial(self, line, impl):
         if line.startswith("wbuf"):
             return not impl.startswith("all=")
+        if line.startswith("sdc"):
+            return not impl.startswith("0:tx=")
         ops = line.split()[3:]
         if re.search(r"(^| )1[45]:sh=[^- ]", impl):
             return False    # h3 has opened its grease stream and written on it
-        return not any(o.split(".")[-1].split(":")[0] in ("R", "sr", "sd", "st", "fi", "S") for o in ops if "." in o)
+        return not any(o.split(".")[-1].split(":")[0] in ("R", "sr", "sd", "st", "fi", "S", "rs") for o in ops if "." in o)
 
     def shrink_candidates(self, line):
         w = line.split()
@@ -619,6 +801,16 @@ class C14(Prop):
                 k, a = w[1].rsplit(":", 1)
                 if len(a) > 2 and all(c in "0123456789abcdef" for c in a) and k.split(":")[-1] in ("data", "headers"):
                     out.append("wbuf %s:%s %s" % (k, a[:len(a) // 4 * 2] or "-", w[2]))
+            return out
+        if w[0] == "sdc":
+            pays = [i for i, t in enumerate(w) if i >= 4 and not t.startswith("#")]
+            for i in pays:
+                if len(pays) > 1:
+                    out.append(" ".join(w[:i] + w[i + 1:]))
+            gs = w[3].split(",")
+            for i in range(len(gs)):
+                rest = gs[:i] + gs[i + 1:]
+                out.append(" ".join(w[:3] + [",".join(rest) if rest else "-"] + w[4:]))
             return out
         ops = w[3:]
         i = 0
